@@ -188,7 +188,7 @@ def deep_canon(root, intern_tuples=False):
       tags = tuple(sorted((repr(k), tuple(sorted(t.__name__ for t in ts)))
                           for k, ts in x.__argument_tags__.items() if ts))
       return ("buildable", n, type(x).__name__, go(x.__fn_or_cls__),
-              tuple((k, go(v)) for k, v in config_lib.ordered_arguments(x).items()), tags)
+              tuple((k, go(v)) for k, v in common.own_ordered_arguments(x).items()), tags)
     if isinstance(x, collections.defaultdict):
       return ("defaultdict", n, go(x.default_factory), tuple((go(k), go(v)) for k, v in x.items()))
     if isinstance(x, dict):
